@@ -222,6 +222,27 @@ impl Run {
         m
     }
 
+    /// References held by uploads that are still open: one per complete chunk already stored.
+    /// They count like references of finished artifacts (a collection must leave them alone).
+    fn writer_refs(&self) -> BTreeMap<String, i64> {
+        let c = self.c;
+        let mut m = BTreeMap::new();
+        for w in &self.writers {
+            for ci in 0..w.stored {
+                *m.entry(chunk_key(&w.bytes[ci * c..(ci + 1) * c])).or_insert(0) += 1;
+            }
+        }
+        m
+    }
+
+    fn all_refs(&self) -> BTreeMap<String, i64> {
+        let mut m = self.live_refs();
+        for (k, n) in self.writer_refs() {
+            *m.entry(k).or_insert(0) += n;
+        }
+        m
+    }
+
     pub fn step(&mut self, op: &Op, ctx: &mut CaseCtx) -> Result<(), Fail> {
         if self.stopped {
             return Ok(());
@@ -302,7 +323,7 @@ impl Run {
                 };
                 if let Some(by) = ow.tainted {
                     // legal sequence: writer open across a collection. The artifact must read back.
-                    self.lab(ctx, format!("finished a writer that was open across a {by} which collected or un-counted its chunks"));
+                    self.lab(ctx, format!("finished a writer that was open across a {by}"));
                     let got = block_on(self.blob.get(&id));
                     let sig = format!("open-writer-chunks-collected:{by}");
                     if got.as_ref().ok() != Some(&bytes) {
@@ -315,6 +336,9 @@ impl Run {
                             format!("a streaming writer had stored {} chunk(s) when {by} ran; {by} deleted them (no finished artifact referenced them yet); finish() then returned Ok but get() gives {shown}", ow.stored),
                         )?;
                         self.known_sigs.push(sig);
+                        // reference counts no longer describe this artifact: downstream effects belong to the same cause
+                        self.stopped = true;
+                        return Ok(());
                     } else {
                         // readable, but are its chunks still counted?
                         let table = chunk_table(self.blob.store());
@@ -329,11 +353,10 @@ impl Run {
                                 format!("a streaming writer had stored {} chunk(s) when {by} ran; after finish() chunk {} has _refs = {:?} but {t} live references ({by} dropped the writer's reference)", ow.stored, short(k), table.get(k).map(|r| r.refs)),
                             )?;
                             self.known_sigs.push(sig);
+                            self.stopped = true;
+                            return Ok(());
                         }
                     }
-                    // reference counts no longer describe this artifact: downstream effects belong to the same cause
-                    self.stopped = true;
-                    return Ok(());
                 }
                 let keys = keys_of(&bytes, c);
                 self.note_new_artifact(&keys, ctx);
@@ -422,13 +445,14 @@ impl Run {
                 }
             },
             Op::FullGc => {
-                let referenced: BTreeSet<String> = self.live_refs().into_keys().collect();
+                let referenced: BTreeSet<String> = self.all_refs().into_keys().collect();
+                let live_only = self.live_refs().len();
                 if self.writers.iter().any(|w| w.stored > 0) {
+                    ctx.set_nontrivial();
                     self.lab(ctx, "writer holding chunks open across full_gc");
                 }
                 for w in self.writers.iter_mut() {
-                    let lost = (0..w.stored).any(|ci| !referenced.contains(&chunk_key(&w.bytes[ci * c..(ci + 1) * c])));
-                    if lost && w.tainted.is_none() {
+                    if w.stored > 0 && w.tainted.is_none() {
                         w.tainted = Some("full_gc");
                     }
                 }
@@ -446,12 +470,23 @@ impl Run {
                 }
                 let st = block_on(self.blob.stats()).map_err(|e| Fail::new("stats-error", e.to_string()))?;
                 if st.chunk_count != referenced.len() {
-                    bail!(self, ctx, "full_gc-count", "after full_gc stats().chunk_count = {} but live artifacts reference {} distinct chunks", st.chunk_count, referenced.len());
+                    if st.chunk_count == live_only && live_only < referenced.len() {
+                        bail!(
+                            self,
+                            ctx,
+                            "open-writer-chunks-collected:full_gc",
+                            "full_gc left {} chunks = those of the finished artifacts; {} more are held by uploads in progress and were deleted",
+                            st.chunk_count,
+                            referenced.len() - live_only
+                        );
+                    }
+                    bail!(self, ctx, "full_gc-count", "after full_gc stats().chunk_count = {} but live artifacts and open uploads reference {} distinct chunks", st.chunk_count, referenced.len());
                 }
             },
             Op::Repair => {
-                let truth = self.live_refs();
+                let truth = self.all_refs();
                 if self.writers.iter().any(|w| w.stored > 0) {
+                    ctx.set_nontrivial();
                     self.lab(ctx, "writer holding chunks open across repair");
                 }
                 for w in self.writers.iter_mut() {
